@@ -1,5 +1,14 @@
-(* Model of tower-resilience-fallback: FallbackService::call (src/lib.rs).
-   A pure function of (strategy, predicate, request, inner outcome, backup outcome).
+(* Model of tower-resilience-fallback: FallbackService (src/lib.rs).
+
+   Two layers:
+   * [call]: the pure reference function of (strategy, predicate, request, inner outcome,
+     backup outcome) with the log of everything the layer invokes, in order: the inner
+     service, the predicate, the strategy closure, the backup service;
+   * [step]: the step machine the correspondence driver runs: several calls through one
+     service value and its clones, futures polled by hand, inner and backup services that
+     answer when the script says so (or panic), futures dropped half-way, readiness errors.
+     Proof/Fallback.v shows that every completed call of the machine is [call] applied to
+     that call's own request and the outcomes delivered to that call.
    No proofs here. *)
 From TR Require Import Lib.Base.
 
@@ -16,47 +25,219 @@ Section Fallback.
 
   Inductive ferr := Inner (e : Err) | FallbackFailed (e : Err).
 
+  (* everything the layer invokes *)
+  Inductive event :=
+  | EInner (r : Req)              (* inner.call(req) *)
+  | EPred (e : Err)               (* handle predicate *)
+  | EValueFn                      (* value_fn closure *)
+  | EFromError (e : Err)          (* from_error closure *)
+  | EFromReqErr (r : Req) (e : Err)
+  | EBackup (r : Req)             (* backup service *)
+  | EException (e : Err).         (* error transformation *)
+
   Record result := {
     inner_calls : list Req;      (* requests forwarded to the wrapped service *)
     backup_calls : list Req;     (* requests forwarded to the backup service *)
+    fn_log : list event;         (* every invocation, in order *)
     out : Res + ferr
   }.
+
+  Definition pred_events (pred : option (Err -> bool)) (e : Err) : list event :=
+    match pred with Some _ => [EPred e] | None => [] end.
 
   (* [inner] and [backup] are the (deterministic, per call) behaviours of the
      wrapped and backup services. *)
   Definition call (st : strategy) (pred : option (Err -> bool))
              (inner backup : Req -> Res + Err) (req : Req) : result :=
     match inner req with
-    | inl r => {| inner_calls := [req]; backup_calls := []; out := inl r |}
+    | inl r => {| inner_calls := [req]; backup_calls := []; fn_log := [EInner req]; out := inl r |}
     | inr e =>
       let handle := match pred with Some p => p e | None => true end in
+      let pre := EInner req :: pred_events pred e in
       if negb handle then
-        {| inner_calls := [req]; backup_calls := []; out := inr (Inner e) |}
+        {| inner_calls := [req]; backup_calls := []; fn_log := pre; out := inr (Inner e) |}
       else
         match st with
-        | SValue v => {| inner_calls := [req]; backup_calls := []; out := inl v |}
-        | SValueFn f => {| inner_calls := [req]; backup_calls := []; out := inl (f tt) |}
-        | SFromError f => {| inner_calls := [req]; backup_calls := []; out := inl (f e) |}
+        | SValue v => {| inner_calls := [req]; backup_calls := []; fn_log := pre; out := inl v |}
+        | SValueFn f => {| inner_calls := [req]; backup_calls := []; fn_log := pre ++ [EValueFn];
+                           out := inl (f tt) |}
+        | SFromError f => {| inner_calls := [req]; backup_calls := []; fn_log := pre ++ [EFromError e];
+                             out := inl (f e) |}
         | SFromRequestError f =>
-            {| inner_calls := [req]; backup_calls := []; out := inl (f req e) |}
+            {| inner_calls := [req]; backup_calls := []; fn_log := pre ++ [EFromReqErr req e];
+               out := inl (f req e) |}
         | SService =>
             match backup req with
-            | inl r => {| inner_calls := [req]; backup_calls := [req]; out := inl r |}
-            | inr be => {| inner_calls := [req]; backup_calls := [req];
+            | inl r => {| inner_calls := [req]; backup_calls := [req]; fn_log := pre ++ [EBackup req];
+                          out := inl r |}
+            | inr be => {| inner_calls := [req]; backup_calls := [req]; fn_log := pre ++ [EBackup req];
                            out := inr (FallbackFailed be) |}
             end
         | SException f =>
-            {| inner_calls := [req]; backup_calls := []; out := inr (Inner (f e)) |}
+            {| inner_calls := [req]; backup_calls := []; fn_log := pre ++ [EException e];
+               out := inr (Inner (f e)) |}
         end
     end.
+
+  (* ---- the step machine ---- *)
+  Inductive outcome := OOk (r : Res) | OErr (e : Err) | OPanic.
+
+  Inductive phase :=
+  | PCreated                          (* call() returned a future; nothing has run *)
+  | PWaitInner                        (* first poll done: inner.call(req) made, awaiting it *)
+  | PInnerReady (o : outcome)         (* the inner service has answered; the future was woken *)
+  | PWaitBackup                       (* backup(req_clone) made, awaiting it *)
+  | PBackupReady (o : outcome)
+  | PDone (r : Res + ferr)
+  | PPanicked
+  | PDropped.
+
+  Record callst := {
+    c_req : Req;
+    c_phase : phase;
+    c_inner : option outcome;         (* what the inner service answered to this call *)
+    c_backup : option outcome;        (* what the backup service answered to this call *)
+    c_log : list event                (* what this call invoked, in order *)
+  }.
+
+  Record mstate := {
+    m_calls : list callst;
+    m_events : list (nat * event);    (* global order *)
+    m_ready : list ferr;              (* results of failed poll_ready()s *)
+    m_flags : list Z                  (* per op: 1 = it took effect *)
+  }.
+
+  Inductive op :=
+  | OpCall (req : Req)                (* poll_ready + call on the service or a clone: a new future *)
+  | OpPoll (k : nat)
+  | OpInnerDone (k : nat) (o : outcome)
+  | OpBackupDone (k : nat) (o : outcome)
+  | OpDrop (k : nat)
+  | OpReadyFail (e : Err)             (* the inner service's poll_ready fails with e *)
+  | OpNop.
+
+  Definition init : mstate := {| m_calls := []; m_events := []; m_ready := []; m_flags := [] |}.
+
+  Fixpoint upd {A} (k : nat) (f : A -> A) (l : list A) : list A :=
+    match l, k with
+    | [], _ => []
+    | x :: t, O => f x :: t
+    | x :: t, S k' => x :: upd k' f t
+    end.
+
+  Definition set_phase (p : phase) (es : list event) (c : callst) : callst :=
+    {| c_req := c_req c; c_phase := p; c_inner := c_inner c; c_backup := c_backup c;
+       c_log := c_log c ++ es |}.
+
+  (* one poll of a call's future: new phase and the invocations made during this poll *)
+  Definition poll_call (st : strategy) (pred : option (Err -> bool)) (c : callst) : phase * list event :=
+    let req := c_req c in
+    match c_phase c with
+    | PCreated => (PWaitInner, [EInner req])
+    | PInnerReady (OOk r) => (PDone (inl r), [])
+    | PInnerReady OPanic => (PPanicked, [])
+    | PInnerReady (OErr e) =>
+        let handle := match pred with Some p => p e | None => true end in
+        let pe := pred_events pred e in
+        if negb handle then (PDone (inr (Inner e)), pe)
+        else match st with
+             | SValue v => (PDone (inl v), pe)
+             | SValueFn f => (PDone (inl (f tt)), pe ++ [EValueFn])
+             | SFromError f => (PDone (inl (f e)), pe ++ [EFromError e])
+             | SFromRequestError f => (PDone (inl (f req e)), pe ++ [EFromReqErr req e])
+             | SService => (PWaitBackup, pe ++ [EBackup req])
+             | SException f => (PDone (inr (Inner (f e))), pe ++ [EException e])
+             end
+    | PBackupReady (OOk r) => (PDone (inl r), [])
+    | PBackupReady (OErr be) => (PDone (inr (FallbackFailed be)), [])
+    | PBackupReady OPanic => (PPanicked, [])
+    | p => (p, [])
+    end.
+
+  Definition alive (c : callst) : bool :=
+    match c_phase c with PDone _ | PPanicked | PDropped => false | _ => true end.
+
+  Definition flag (b : bool) (s : mstate) : mstate :=
+    {| m_calls := m_calls s; m_events := m_events s; m_ready := m_ready s;
+       m_flags := m_flags s ++ [b2z b] |}.
+
+  Definition with_calls (cs : list callst) (evs : list (nat * event)) (s : mstate) : mstate :=
+    {| m_calls := cs; m_events := m_events s ++ evs; m_ready := m_ready s; m_flags := m_flags s |}.
+
+  Definition step (st : strategy) (pred : option (Err -> bool)) (s : mstate) (o : op) : mstate :=
+    match o with
+    | OpCall req =>
+        flag true (with_calls (m_calls s ++ [{| c_req := req; c_phase := PCreated; c_inner := None;
+                                               c_backup := None; c_log := [] |}]) [] s)
+    | OpPoll k =>
+        match nth_error (m_calls s) k with
+        | Some c =>
+            if alive c then
+              let (p, es) := poll_call st pred c in
+              flag true (with_calls (upd k (set_phase p es) (m_calls s)) (map (fun e => (k, e)) es) s)
+            else flag false s
+        | None => flag false s
+        end
+    | OpInnerDone k o =>
+        match nth_error (m_calls s) k with
+        | Some c =>
+            match c_phase c with
+            | PWaitInner =>
+                flag true (with_calls (upd k (fun c => {| c_req := c_req c; c_phase := PInnerReady o;
+                                                         c_inner := Some o; c_backup := c_backup c;
+                                                         c_log := c_log c |}) (m_calls s)) [] s)
+            | _ => flag false s
+            end
+        | None => flag false s
+        end
+    | OpBackupDone k o =>
+        match nth_error (m_calls s) k with
+        | Some c =>
+            match c_phase c with
+            | PWaitBackup =>
+                flag true (with_calls (upd k (fun c => {| c_req := c_req c; c_phase := PBackupReady o;
+                                                         c_inner := c_inner c; c_backup := Some o;
+                                                         c_log := c_log c |}) (m_calls s)) [] s)
+            | _ => flag false s
+            end
+        | None => flag false s
+        end
+    | OpDrop k =>
+        match nth_error (m_calls s) k with
+        | Some c =>
+            if alive c then flag true (with_calls (upd k (set_phase PDropped []) (m_calls s)) [] s)
+            else flag false s
+        | None => flag false s
+        end
+    | OpReadyFail e =>
+        (* poll_ready: Err(FallbackError::Inner(e)); no predicate, no strategy, no call *)
+        flag true {| m_calls := m_calls s; m_events := m_events s; m_ready := m_ready s ++ [Inner e];
+                     m_flags := m_flags s |}
+    | OpNop => flag false s
+    end.
+
+  Definition run_ops (st : strategy) (pred : option (Err -> bool)) (ops : list op) : mstate :=
+    fold_left (step st pred) ops init.
 End Fallback.
 
 Arguments strategy : clear implicits.
 Arguments ferr : clear implicits.
+Arguments event : clear implicits.
 Arguments result : clear implicits.
+Arguments outcome : clear implicits.
+Arguments phase : clear implicits.
+Arguments callst : clear implicits.
+Arguments mstate : clear implicits.
+Arguments op : clear implicits.
 
 (* ---- script interface (instantiation used by the correspondence check) ----
    script = [strategy; pred_mode; value; req; inner_kind; inner_val; backup_kind; backup_val]
+            ++ (op, a, b)*   with op 1 CALL (a: 0 the service, 1 a long-lived clone, 2 a fresh clone;
+            b = request), 2 POLL a, 3 INNER_DONE (call a, outcome b), 4 BACKUP_DONE (call a, outcome b),
+            5 DROP a, 6 READY_FAIL (a handle, b error); outcome b: b mod 4 = 0 Ok (b / 4), 1 Err (b / 4),
+            2,3 panic. Without ops the script is the single call of the header:
+            CALL req; POLL; INNER_DONE; POLL; BACKUP_DONE; POLL.
+   pred_mode mod 4 selects the predicate; the higher bits select the builder route in the harness.
    The concrete closures below are mirrored verbatim in harness/src/bin/c17.rs. *)
 Definition fe (e : Z) : Z := 1000 + 3 * e.
 Definition fre (r e : Z) : Z := 2000 + 37 * r + e.
@@ -66,23 +247,64 @@ Definition pred_of (m : Z) : option (Z -> bool) :=
   if m =? 1 then Some (fun e => Z.even e) else
   if m =? 2 then Some (fun _ => true) else Some (fun _ => false).
 
-Definition run_script (s : list Z) : list Z :=
+Definition strategy_of (s : list Z) : strategy Z Z Z :=
   let v := zn s 2 in
-  let st : strategy Z Z Z :=
-    match zn s 0 with
-    | 0 => SValue v | 1 => SValueFn (fun _ => v + 1) | 2 => SFromError fe
-    | 3 => SFromRequestError fre | 4 => SService | _ => SException fx
-    end in
-  let inner (r : Z) : Z + Z :=
-    if zn s 4 =? 0 then inl (zn s 5 + 11 * r) else inr (zn s 5) in
-  let backup (r : Z) : Z + Z :=
-    if zn s 6 =? 0 then inl (zn s 7 + 13 * r) else inr (zn s 7) in
-  (* pred_mode / 4 only selects the builder call order in the harness (handle before or after the strategy) *)
-  let r := call st (pred_of (zn s 1 mod 4)) inner backup (zn s 3) in
-  [Z.of_nat (length (inner_calls r)); hd (-1) (inner_calls r);
-   Z.of_nat (length (backup_calls r)); hd (-1) (backup_calls r)] ++
-  match out r with
-  | inl x => [0; x]
-  | inr (Inner e) => [1; e]
-  | inr (FallbackFailed e) => [2; e]
+  match zn s 0 with
+  | 0 => SValue v | 1 => SValueFn (fun _ => v + 1) | 2 => SFromError fe
+  | 3 => SFromRequestError fre | 4 => SService | _ => SException fx
   end.
+
+Definition outcome_of (b : Z) : outcome Z Z :=
+  let k := b mod 4 in
+  if k =? 0 then OOk (b / 4) else if k =? 1 then OErr (b / 4) else OPanic.
+
+Definition op_of (t : Z * Z * Z) : op Z Z Z :=
+  let '(o, a, b) := t in
+  match o with
+  | 1 => OpCall b
+  | 2 => if a <? 0 then OpNop else OpPoll (Z.to_nat a)
+  | 3 => if a <? 0 then OpNop else OpInnerDone (Z.to_nat a) (outcome_of b)
+  | 4 => if a <? 0 then OpNop else OpBackupDone (Z.to_nat a) (outcome_of b)
+  | 5 => if a <? 0 then OpNop else OpDrop (Z.to_nat a)
+  | 6 => OpReadyFail b
+  | _ => OpNop
+  end.
+
+Definition default_ops (s : list Z) : list (Z * Z * Z) :=
+  let req := zn s 3 in
+  let io := if zn s 4 =? 0 then 4 * (zn s 5 + 11 * req) else 4 * zn s 5 + 1 in
+  let bo := if zn s 6 =? 0 then 4 * (zn s 7 + 13 * req) else 4 * zn s 7 + 1 in
+  [(1, 0, req); (2, 0, 0); (3, 0, io); (2, 0, 0); (4, 0, bo); (2, 0, 0)].
+
+Definition ops_of (s : list Z) : list (op Z Z Z) :=
+  let raw := chunk3 (skipn 8 s) in
+  map op_of (match raw with [] => default_ops s | _ => raw end).
+
+Definition enc_event (ke : nat * event Z Z) : list Z :=
+  let (k, e) := ke in
+  Z.of_nat k ::
+  match e with
+  | EInner r => [0; r; 0] | EPred e => [1; e; 0] | EValueFn => [2; 0; 0] | EFromError e => [3; e; 0]
+  | EFromReqErr r e => [4; r; e] | EBackup r => [5; r; 0] | EException e => [6; e; 0]
+  end.
+
+Definition enc_ferr (f : ferr Z) : list Z :=
+  match f with Inner e => [1; e] | FallbackFailed e => [2; e] end.
+
+Definition enc_call (c : callst Z Z Z) : list Z :=
+  match c_phase c with
+  | PDone (inl x) => [0; x]
+  | PDone (inr f) => enc_ferr f
+  | PPanicked => [3; 0]
+  | PDropped => [4; 0]
+  | _ => [5; 0]
+  end.
+
+(* trace = [n_calls; (kind, payload)*; n_ready; (kind, payload)*; n_ops; flag*; n_events; (call, kind, a, b)*]
+   result kind: 0 Ok, 1 Err(Inner), 2 Err(FallbackFailed), 3 panicked, 4 dropped, 5 not finished *)
+Definition run_script (s : list Z) : list Z :=
+  let m := run_ops (strategy_of s) (pred_of (zn s 1 mod 4)) (ops_of s) in
+  [Z.of_nat (length (m_calls m))] ++ flat_map enc_call (m_calls m) ++
+  [Z.of_nat (length (m_ready m))] ++ flat_map enc_ferr (m_ready m) ++
+  [Z.of_nat (length (m_flags m))] ++ m_flags m ++
+  [Z.of_nat (length (m_events m))] ++ flat_map enc_event (m_events m).
